@@ -22,6 +22,24 @@ CHECKS = {
          "Order inside containers is not part of the mirror (announcements carry no position); after a simulator veto the shadows are re-synchronised; vetoes are injected only at the first announcement of an event."),
  "C10": ("iredit", "A", "Seeded search over naming histories (create/add/remove/re-add, rename, identifier set/delete/pop, clone, policy switches, GC) under both policies; after every event every scope is queried through the public get_* functions for every present value and its case variant and compared with a list scan; ValueError outcomes are compared with an independent duplicate/illegal/compliance prediction made before the call.",
          "A parent's policy is its own '.NS' entry; the '.NS' entry itself is not edited by the workload; one open finding (first_of_duplicates under DEFAULT identifiers) is listed in KNOWN_FINDINGS.txt."),
+ "C03": ("disk", "B", "Seeded search over EDIF-expressible netlists (generated hierarchical designs declared in non-dependency order, awkward names, three property types; bundled examples) written to the simulated disk, optionally across a simulated process restart, read back under a seeded short-read law, and round-tripped once more; name-level canonical forms and an independent s-expression reading of the file are compared.",
+         "Port base indices are not compared; libraries and cells are name-keyed sets; two open findings (bus with '&_' identifier, negative base index) are listed in KNOWN_FINDINGS.txt."),
+ "C07": ("iredit+hier", "A", "Seeded search: a netlist built by the hierarchical generator or a free edit history, one clone() of a random element of any kind with every documented postcondition checked (closure, structure, deep data, bookkeeping, source unchanged), then a second seeded history (edits, uniquify, flatten) on one side while the other side's identity-level snapshot must not change.",
+         "Closure/independence are demanded only when the source netlist is self-contained; a refused clone of a source whose pins reach wires outside it is accepted if nothing changed."),
+ "C08": ("hier", "C", "Seeded search over generated sharing patterns (incl. names a previous process' uniquify could have left behind, counter start values); independent elaboration before == after, uniqueness along every path, well-formedness, new definitions findable, second call is a no-op.",
+         "Pure function of the netlist except for the process-wide name counter, which the restart fault exercises."),
+ "C09": ("hier", "C", "Seeded search over generated hierarchical designs (pass-through and wire-only cells, inner nets on several ports, unconnected sides, bus ports), uniquified and flattened; the independent elaboration before is compared with a direct reading of the top definition after.",
+         "Instance names contain no '/'; user data compared excludes keys flatten is allowed to rewrite."),
+ "C11": ("hier", "A", "Seeded search: generated designs, then seeded sequences of get_h* queries over every root kind (held or dropped), GC events, path-breaking edits, re-check of held references; results are compared with an independent path enumeration, names, validity, uniqueness and flyweight identity.",
+         "Exact-set expectations only for roots whose meaning the statement fixes; queries on a design that is not self-contained are skipped."),
+ "C12": ("hier", "C", "Seeded search: generated designs and sampled start points of every kind traced with selection ALL/INSIDE/OUTSIDE and get_hpins, compared with equivalence classes of an independent union-find elaboration.",
+         "Designs are built by valid API calls only (well-formed, self-contained)."),
+ "C13": ("hier", "C", "Seeded search over designs with colliding names/identifiers/user keys under both policies and 20-60 sampled query shapes each; metamorphic oracle: every pattern/option variant must equal the unfiltered result restricted to matching values, without duplicates, independent of pattern order and of the fast lookup being registered.",
+         "Hierarchical queries below a netlist / instance reference match names relative to the root; one open finding (exact pattern returns the first of several equal values) is listed."),
+ "C16": ("disk", "A", "Seeded search: a composable netlist (generated for EDIF, bundled examples parsed through the simulated disk for all three formats) composed twice to the simulated file system with seeded options, queries/GC/clock jumps in between, ENOSPC injected into some first writes; identity-level snapshot, text equality modulo timeStamp, open-handle table and file completeness are checked.",
+         "Permitted EDIF side effects: dependency-respecting reorder and added EDIF.identifier/EDIF.rename entries."),
+ "C17": ("disk", "B", "Seeded search over adversarial sibling names in every scope; identifiers checked against an independent EDIF grammar and for case-insensitive uniqueness; the exported file is read back and the names compared.",
+         "Names contain no double quote/newline/percent; whole cables are not named stem[digits]; one open finding (bus with '&_' identifier) is listed."),
 }
 
 def main():
